@@ -28,7 +28,8 @@ LEVEL_TEXT = (
     "(jets over polynomial fields on random affine cells, incl. immersed manifolds), the output by the same interpreter, "
     "and the two values are compared (50-digit confirmation); the output is also checked to differentiate terminals only."
 )
-LEVEL_NOTE = "trusted: jet algebra (self-checked derivative table), vf/seval.py; bounds: depth<=4, derivative nesting<=3, polynomial degree<=3, affine simplex cells"
+LEVEL_NOTE = ("trusted: jet algebra (self-checked derivative table), vf/seval.py; bounds: depth<=4, derivative nesting<=3, polynomial degree<=3, affine simplex "
+              "cells plus (about 15 % of the cases) single non-affine cells with a quadratic map, tdim == gdim, whose world is self-tested against finite differences at start-up")
 RULE = (
     "case i = (outer derivative operator(s), generated operand expression, cell, gdim, real/complex); distinct = skeleton(depth 3) "
     "of the input + cell + complex flag; non-trivial = input contains at least one derivative node applied to a non-terminal "
@@ -40,7 +41,7 @@ ASSUMPTIONS = [
 ]
 BUDGET = {"quick": 50, "thorough": 450}
 NCASES = {"quick": 3000, "thorough": 60000}
-FLOORS = {'quick': {'case_held': 400, 'nontrivial': 300, 'two_mesh_held': 25}, 'thorough': {'case_held': 12000, 'nontrivial': 8000, 'two_mesh_held': 700, 'suite:apply_derivatives:held': 3000, 'suite:apply_derivatives:held_and_changed': 2000}}
+FLOORS = {"quick": {"case_held": 400, "nontrivial": 300, "two_mesh_held": 25, "curved_held": 40, "selftest_non_affine_world_ok": 3}, 'thorough': {'case_held': 12000, 'nontrivial': 8000, 'two_mesh_held': 700, 'curved_held': 800, 'selftest_non_affine_world_ok': 3, 'suite:apply_derivatives:held': 3000, 'suite:apply_derivatives:held_and_changed': 2000}}
 COVER_FLOORS = {"quick": {"outer": ["grad", "div", "curl", "nabla_grad", "nabla_div", "dx"]}, "thorough": {"outer": ["grad", "div", "curl", "nabla_grad", "nabla_div", "dx"]}}
 CELLS = [("interval", 1), ("interval", 2), ("triangle", 2), ("triangle", 2), ("triangle", 3), ("tetrahedron", 3), ("tetrahedron", 3)]
 DERIV = {"Grad", "Div", "Curl", "NablaGrad", "NablaDiv", "ReferenceGrad", "ReferenceDiv", "ReferenceCurl"}
@@ -185,9 +186,100 @@ def two_meshes(ctx, rng):
         ctx.add_distinct(("two-meshes", kind, c1, g1, c2, g2, skeleton(parts[0][0], 2)))
 
 
+def once(ctx):
+    """Start-up self-test of the non-affine world: the interpreter's first and second physical derivatives of a reference
+    polynomial and of det J are compared with central finite differences through an independently inverted cell map."""
+    import random
+
+    import numpy as np
+
+    from ..jet import CBackend
+    from ..seval import S
+    from ..world import CurvedWorld
+
+    rng = random.Random(ctx.seed * 7919 + 13)
+    B = CBackend()
+    for cell, g in (("interval", 1), ("triangle", 2), ("tetrahedron", 3)):
+        U = Universe(rng, cell, g, "cell", False, coord_degree=2)
+        w = CurvedWorld(rng, cell, g)
+        f = U.coef("P2")
+        S(f, w)
+        pf = w.field(f, "+")
+
+        def X_of(xv):
+            X = w.sides["+"].X.copy()
+            for _ in range(60):
+                r = w.x0 + w.A @ X + 0.5 * np.einsum("gtu,t,u->g", w.Q, X, X) - xv
+                X = X - np.linalg.solve(w.A + w.Q @ X, r)
+            return X
+
+        def fval(xv):
+            return complex(pf.eval(B, B.asarray(X_of(xv)), 0)[0]).real
+
+        def dval(xv):
+            X = X_of(xv)
+            return float(np.linalg.det(w.A + w.Q @ X))
+
+        h = 1e-4
+        eye = np.eye(g)
+        x0 = np.array(w.x, dtype=float)
+        for name, fun, expr in (("field", fval, f), ("detJ", dval, ufl.JacobianDeterminant(U.mesh))):
+            g1 = np.array([(fun(x0 + h * e) - fun(x0 - h * e)) / (2 * h) for e in eye])
+            g2 = np.array([[(fun(x0 + h * a + h * b) - fun(x0 + h * a - h * b) - fun(x0 - h * a + h * b) + fun(x0 - h * a - h * b)) / (4 * h * h) for b in eye] for a in eye])
+            s1 = np.asarray(S(ufl.grad(expr), w).arr, dtype=complex).real.reshape(g)
+            s2 = np.asarray(S(ufl.grad(ufl.grad(expr)), w).arr, dtype=complex).real.reshape(g, g)
+            sc = max(1.0, float(np.max(np.abs(g2))))
+            if np.max(np.abs(s1 - g1)) > 1e-5 * sc or np.max(np.abs(s2 - g2)) > 1e-4 * sc:
+                raise RuntimeError(f"non-affine world self-test failed for {name} on {cell}: {s1} vs {g1}; {s2} vs {g2}")
+        kj = np.asarray(S(ufl.JacobianInverse(U.mesh) * ufl.Jacobian(U.mesh), w).arr, dtype=complex)
+        if np.max(np.abs(kj - np.eye(g))) > 1e-12:
+            raise RuntimeError("non-affine world self-test failed: K J != I")
+        ctx.count("selftest_non_affine_world_ok")
+
+
+def curved(ctx, rng):
+    """Non-affine cells (P2 coordinate element): fields are polynomials in the reference coordinates, hence not polynomials
+    in x; Jacobian, its inverse and determinant vary over the cell.  Nothing that is only true on affine cells may be used."""
+    from ..world import CurvedWorld
+
+    cell, gdim = rng.choice([("interval", 1), ("triangle", 2), ("triangle", 2), ("tetrahedron", 3)])
+    U = Universe(rng, cell, gdim, "cell", False, coord_degree=rng.choice([2, 2, 3]))
+    levels = rng.choice([1, 2, 2, 3, 3])
+    G = Gen(U, rng, cplx=False, deriv=rng.choice([0, 0, 1]), cond=rng.random() < 0.3, math=rng.random() < 0.6, geom=rng.random() < 0.7, piola=False)
+    G.geo_scalar_classes = [ufl.JacobianDeterminant]
+    # low-degree coefficients below several derivative operators are the point of this workload
+    G.extra = [U.coef(n) for n in ("P1", "P2", "DG1") if n in U.spaces] + [U.x]
+    G.extra_prob = 0.5
+    try:
+        e, ops = wrap(rng, U, G, rng.choice([0, 1, 1, 2]), levels)
+    except Exception as ex:
+        ctx.count("build_rejected")
+        ctx.covered("build_rejected_with", type(ex).__name__)
+        return
+    route = rng.choice(["expand_derivatives", "lower+apply"])
+    fn = expand_derivatives if route == "expand_derivatives" else (lambda x: apply_derivatives(apply_algebra_lowering(x)))
+    worlds = []
+    for _ in range(3):
+        w = CurvedWorld(rng, cell, gdim)
+        w.mesh = U.mesh
+        worlds.append(w)
+    verdict, out = check_pass(ctx, "C03", "expand_derivatives", e, fn, worlds, extra_key="/non-affine")
+    ctx.count("curved_" + verdict.replace("-", "_"))
+    if verdict == "held":
+        ctx.add_distinct(("non-affine", skeleton(e, 3), cell, levels))
+        for op in ops:
+            ctx.covered("outer_non_affine", op)
+        bad = derivative_targets_ok(out)
+        if bad:
+            ctx.violation(f"C03/expand_derivatives/derivative-of-non-terminal-left/{bad[0]}/non-affine", f"output still differentiates non-terminals: {bad[:4]}", {"input": str(e)[:800], "output": str(out)[:800]})
+
+
 def case(ctx, i, rng):
-    if rng.random() < 0.12:
+    r = rng.random()
+    if r < 0.12:
         return two_meshes(ctx, rng)
+    if r < 0.27:
+        return curved(ctx, rng)
     cell, gdim = rng.choice(CELLS)
     cplx = rng.random() < 0.25
     U = Universe(rng, cell, gdim, "cell", cplx)
